@@ -20,8 +20,8 @@ pub struct St {
 
 #[derive(Clone, Debug)]
 pub struct Opts {
-    /// keep every head answer of condu/onceo and log which one each answer depends on
-    pub all_choices: bool,
+    /// which head answer each evaluated condu/onceo keeps (by evaluation order; default: first)
+    pub choice_script: Option<Vec<u32>>,
     /// evaluation steps allowed before giving up
     pub fuel: u64,
     /// how many times `Anyo`/`Flood`/`Always` unfold (0 = treat as finite failure)
@@ -35,7 +35,7 @@ pub struct Opts {
 impl Default for Opts {
     fn default() -> Opts {
         Opts {
-            all_choices: false,
+            choice_script: None,
             fuel: 200_000,
             unfold: 0,
             rec_depth: 64,
@@ -63,6 +63,7 @@ pub struct ChoicePoint {
     pub id: u32,
     pub heads: u32,
     pub forced_first: bool,
+    pub picked: u32,
 }
 
 pub struct Outcome {
@@ -216,18 +217,25 @@ impl<'a> R1<'a> {
         }
     }
 
+    /// Committed choice: keep exactly one head answer. Which one is decided by the choice script
+    /// (`Opts::choice_script`, indexed by the order in which choice points are evaluated; missing
+    /// entries and order-deterministic heads take the first). Every evaluated choice point is
+    /// recorded so that a caller can enumerate the alternatives.
     fn choose(&mut self, mut heads: Vec<St>, forced_first: bool) -> Vec<St> {
-        if self.opts.all_choices {
-            let id = self.choice_points.len() as u32;
-            self.choice_points.push(ChoicePoint { id, heads: heads.len() as u32, forced_first });
-            for (i, h) in heads.iter_mut().enumerate() {
-                h.choices.push((id, i as u32));
+        let id = self.choice_points.len() as u32;
+        let mut pick = 0usize;
+        if !forced_first {
+            if let Some(script) = &self.opts.choice_script {
+                if let Some(p) = script.get(id as usize) {
+                    if (*p as usize) < heads.len() {
+                        pick = *p as usize;
+                    }
+                }
             }
-            heads
-        } else {
-            heads.truncate(1);
-            heads
         }
+        self.choice_points.push(ChoicePoint { id, heads: heads.len() as u32, forced_first, picked: pick as u32 });
+        let chosen = heads.swap_remove(pick);
+        vec![chosen]
     }
 
     fn fresh(&mut self) -> T {
